@@ -247,7 +247,7 @@ def run(ctx, rep):
 
     def dry_filter(body, bb, es):
         if body.path not in dreach:
-            dreach[body.path] = pathsens.reachable_under(body, dry_forced)
+            dreach[body.path] = pathsens.reachable_under_refined(body, dry_forced)
         return es if bb in dreach[body.path] else set()
 
     def no_dryrun_backend(body, t, target):
